@@ -258,6 +258,15 @@ def run_case(case):
     # trained
     flow, a, lo, hi, data, F = build_flow(case, np.random.default_rng(case["seed"]), False)
     integrals["trained"] = check_flow(flow, a, case, lo, hi, data, "trained", where, viol, counters)
+    # re-fit of the same flow object on data with another spread (fitted state of the data transform must be replaced)
+    g2 = np.random.default_rng(case["seed"] + [99])
+    w = hi - lo
+    data2 = np.clip(lo + 0.5 * w + (0.03 if case["data"] != "centred" else 0.2) * w * g2.standard_normal((300, case["d"])), lo + 1e-5 * w, hi - 1e-5 * w)
+    if case["backend"] == "zuko":
+        flow.fit(data2, n_epochs=1, batch_size=100)
+    else:
+        flow.fit(data2, max_epochs=1, batch_size=100, show_progress=False)
+    integrals["refitted"] = check_flow(flow, None, case, lo, hi, np.concatenate([data, data2]), "re-fitted on other data", where, viol, counters)
     # after save -> load
     path = tmpfile("flow.h5")
     try:
@@ -266,7 +275,7 @@ def run_case(case):
         with h5py.File(path, "r") as f:
             flow2 = F.load(f, path="flow")
         integrals["reloaded"] = check_flow(flow2, None, case, lo, hi, data, "after save/load", where, viol, counters)
-        xs = data[:50]
+        xs = data2[:50]
         l1 = np.asarray(to_np(flow.log_prob(xs)), dtype=float)
         l2 = np.asarray(to_np(flow2.log_prob(xs)), dtype=float)
         if not np.allclose(l1, l2, rtol=1e-4 if case["dtype"] == "float32" else 1e-10, atol=1e-4 if case["dtype"] == "float32" else 1e-10):
